@@ -43,7 +43,7 @@ func (eng) CoqRequire(mode string) string {
 func (eng) CoqCaseType(mode string) string { return "Check_cluster.case" }
 func (eng) CoqRun(mode string) string      { return "Check_cluster.run" }
 func (eng) Rule(mode string) string {
-	return "random inputs (1-4 splits, 2-14 records each, 1-5 keys), 1-3 workers, 1-16 key groups, operator/runner/read batch sizes 1-5, tiny DKV (256-byte memtables); schedules of feed/drain/checkpoint/crash ops: checkpoints with every acknowledgement held and released in a random permutation, crashes before/during (after k acknowledgements)/after checkpoints, of all workers with or without the job, restart with the same or another worker count; checkpoints whose publication (file write) is held while all workers are lost and a new assembly is deployed, released before / during the job's Deploy / after; a third of the cases with 1-2 hot keys whose summary entry is rewritten across memtable flushes. Non-trivial: at least one crash after which records were applied, and at least one published checkpoint."
+	return "random inputs (1-4 splits, 2-14 records each, 1-5 keys), 1-3 workers, 1-16 key groups, operator/runner/read batch sizes 1-5, tiny DKV (256-byte memtables); schedules of feed/drain/checkpoint/crash ops: checkpoints with every acknowledgement held and released in a random permutation, crashes before/during (after k acknowledgements)/after checkpoints, of all workers with or without the job, restart with the same or another worker count; checkpoints whose publication (file write) is held while all workers are lost and a new assembly is deployed, released before / during the job's Deploy / after; transient read outages on an operator's DKV storage right after a restart from a checkpoint (the worker stops, everything restarts); a third of the cases with 1-2 hot keys whose summary entry is rewritten across memtable flushes. Non-trivial: at least one crash after which records were applied, and at least one published checkpoint."
 }
 
 type recJ struct {
@@ -68,6 +68,12 @@ type opJ struct {
 	// during the job's Deploy calls ("deploy": between the job's checkpoint read and the start of the source splitter),
 	// or "after" the new generation runs.
 	PubHold string `json:"pub_hold,omitempty"`
+	// op "outage": transient read outage on the DKV storage of live worker `worker` (index into the live ones): after
+	// `after` more data reads of its table files, `len` reads fail; then `n` more records per split are fed. The current
+	// code fails the batch, the worker stops and everything is restarted from the latest checkpoint.
+	Worker int `json:"worker,omitempty"`
+	After  int `json:"after,omitempty"`
+	Len    int `json:"len,omitempty"`
 }
 
 func pInt(c *hx.Case, k string, d int) int {
@@ -365,6 +371,57 @@ func (r *runner) checkpoint(o *opJ) {
 	r.flushedAtCkpt = sstCount(r.c.WorkDir()) > 0
 }
 
+// outage injects a transient storage read outage, lets more input flow, and restarts the whole cluster (like a supervisor)
+// if a worker stopped because of it.
+func (r *runner) outage(o *opJ) {
+	if !r.running() {
+		return
+	}
+	live := r.c.LiveWorkers()
+	v := live[((o.Worker%len(live))+len(live))%len(live)]
+	n := o.Len
+	if n < 1 {
+		n = 1
+	}
+	before := r.c.DataReads(v)
+	defer func() {
+		d := r.c.DataReads(v) - before
+		switch {
+		case d == 0:
+			r.tags["outage-window-data-reads=0"] = true
+		case d <= 30:
+			r.tags["outage-window-data-reads=1..30"] = true
+		default:
+			r.tags["outage-window-data-reads>30"] = true
+		}
+	}()
+	r.c.InjectReadOutage(v, o.After, n)
+	for s := 0; s < r.sc.NumSplits(); s++ {
+		r.sc.Allow(s, max(o.N, 1))
+	}
+	died := func() bool { return len(r.c.LiveWorkers()) < r.w }
+	r.c.Await(func(l *clusterlib.Log) bool { return died() || (r.readAllCond()(l) && r.drainedCond()(l)) }, r.timeout())
+	if r.c.ReadOutageHits(v) > 0 {
+		r.tags["outage:reads-failed"] = true
+	} else {
+		r.tags["outage:not-hit"] = true
+	}
+	r.c.InjectReadOutage(v, 0, 0) // the outage is over
+	if died() {
+		r.tags["outage:worker-stopped"] = true
+		gb := r.c.Generation()
+		if err := r.c.RestartJob(r.w); err != nil {
+			r.notes = append(r.notes, "RestartJob: "+err.Error())
+			return
+		}
+		r.c.StartWorkers(r.w)
+		if !r.c.AwaitRunning(gb, r.timeout()) {
+			r.tags["restart-not-running"] = true
+			r.stalled = true
+		}
+	}
+}
+
 // sstCount counts flushed table files under the operators' DKV directories.
 func sstCount(dir string) int {
 	n := 0
@@ -503,6 +560,12 @@ func (eng) execute(mode string, c *hx.Case) (*hx.Result, error) {
 			cl.FireTimers()
 		case "ckpt":
 			r.checkpoint(&o)
+		case "outage":
+			r.outage(&o)
+		case "settle": // let pending memtable flushes finish (so that the next checkpoint holds state in table files)
+			if r.running() {
+				cl.AwaitFlushed(200 * time.Millisecond)
+			}
 		case "crash":
 			gb := len(cl.Log().Invocations)
 			r.crash(o.Crash)
@@ -765,7 +828,8 @@ func genCase(r *hx.Rand, i int, tier string) *hx.Case {
 		maxPer = 14
 	}
 	nkeys := r.Range(1, 5)
-	if r.Chance(1, 3) { // hot keys: the same few keys (their summary entries) are rewritten across several memtable flushes
+	outageTemplate := i%4 == 1
+	if outageTemplate || r.Chance(1, 3) { // hot keys: the same few keys (their summary entries) are rewritten across several memtable flushes
 		nkeys = r.Range(1, 2)
 		maxPer += 5
 	}
@@ -795,12 +859,24 @@ func genCase(r *hx.Rand, i int, tier string) *hx.Case {
 		return p
 	}
 	phases := r.Range(2, 5)
+	if outageTemplate {
+		// a lot of state of few keys, flushed to table files, checkpointed; restart from it (the state now lives in tables);
+		// then a transient storage outage that begins somewhere inside the scans of the restored state
+		ops = append(ops, hx.Op(opJ{Op: "feed", Split: -1, N: r.Range(5, 9)}), hx.Op(opJ{Op: "drain"}), hx.Op(opJ{Op: "settle"}), hx.Op(opJ{Op: "ckpt", Perm: perm()}),
+			hx.Op(opJ{Op: "crash", Crash: &crashJ{Job: true, Workers: curW}}),
+			hx.Op(opJ{Op: "outage", Worker: r.Intn(3), After: r.Intn(90), Len: r.Range(3, 60), N: r.Range(2, 4)}))
+		phases = r.Range(1, 3)
+	}
 	for p := 0; p < phases; p++ {
 		feed()
 		if r.Chance(1, 2) {
 			ops = append(ops, hx.Op(opJ{Op: "drain"}))
 		}
-		switch r.Intn(7) {
+		switch r.Intn(8) {
+		case 7: // restart from a checkpoint (state now lives in table files), then a transient storage outage while it is read
+			ops = append(ops, hx.Op(opJ{Op: "drain"}), hx.Op(opJ{Op: "settle"}), hx.Op(opJ{Op: "ckpt", Perm: perm()}))
+			ops = append(ops, hx.Op(opJ{Op: "crash", Crash: &crashJ{Job: true, Workers: curW}}))
+			ops = append(ops, hx.Op(opJ{Op: "outage", Worker: r.Intn(3), After: r.Intn(60), Len: r.Range(2, 40), N: r.Range(1, 4)}))
 		case 6: // checkpoint fully acknowledged, publication in flight while all workers are lost and re-deployed
 			ops = append(ops, hx.Op(opJ{Op: "ckpt", Perm: perm(), PubHold: hx.Pick(r, []string{"before", "deploy", "deploy", "after"}),
 				Crash: &crashJ{Notice: hx.Pick(r, []string{"expire", "dereg"})}}))
